@@ -220,13 +220,20 @@ class CliSampler:
                     self.record("cli:concat", [d + "/c.pna"], pw, e2, hist)
         elif kind == "append":
             cli.gen_tree(rnd, self.sb.path(d, "src2"), max_files=3)
-            r = self.pna(base); hist.append(cmdtext(base))
+            # half of the appends go to a MULTIPART archive (create --split): append.rs walks to the last part and
+            # writes there; the whole part set must still be well-formed (seeded C14-5: a seek_to_end that forgets
+            # the successor mark appends into part 1)
+            multi = rnd.random() < 0.5
+            b0 = base + (["--split", str(rnd.choice([200, 350, 600]))] if multi else [])
+            r = self.pna(b0); hist.append(cmdtext(b0))
             if r["rc"] == 0:
-                a = ["append", d + "/a.pna", "-r", d + "/src2", "--quiet"] + rnd.choice(CODECS) + enc + keep
+                before = self.parts_of(d, "a")
+                first = before[0] if before else d + "/a.pna"
+                a = ["append", first, "-r", d + "/src2", "--quiet"] + rnd.choice(CODECS) + enc + keep
                 r = self.pna(a); hist.append(cmdtext(a))
                 e2 = dict(exp); e2.update(tree_expect(self.sb.path(d, "src2"), d + "/src2", kd))
                 if r["rc"] == 0:
-                    self.record("cli:append", [d + "/a.pna"], pw, e2, hist)
+                    self.record("cli:append" + ("/multipart" if len(before) > 1 else ""), self.parts_of(d, "a") or [d + "/a.pna"], pw, e2, hist)
         elif kind == "update":
             solid = ["--solid"] if rnd.random() < 0.4 else []
             a0 = base + solid
